@@ -490,3 +490,176 @@ pub fn gen_name(rng: &mut Rng, i: usize) -> String {
     let base = rng.pick(NAME_POOL);
     format!("{base}{i}")
 }
+
+// ------------------------------------------------------------------------------------------------
+// Formatter configuration shared by the EMF engines.
+//
+// Encoding (fields separated by `/`):
+//   `<how>/<ns>,<ns>…/<set>;<set>…/<loggroup|~>/<ignored 0|1>/<directives 0|1>/<mult>`
+//   how  = `A` Emf::all_validations | `N` Emf::no_validations | `B` builder().build() |
+//          `S` builder().skip_all_validations(true) | `F` builder().skip_all_validations(false)
+//   ns   = hex; set = `<hex>,<hex>…` or `.`;  mult = `-` (plain format) or `m<dec>` (SampledEmf with
+//          that multiplicity; the harness finds a (rate, draw) pair that produces it)
+
+#[derive(Clone, Debug, PartialEq)]
+pub struct EmfCfg {
+    pub how: char,
+    pub namespaces: Vec<String>,
+    pub default_dims: Vec<Vec<String>>,
+    pub log_group: Option<String>,
+    pub allow_ignored: bool,
+    /// adds one fixed extra directive (namespace "Extra", one metric) when true
+    pub extra_directive: bool,
+    pub multiplicity: Option<u64>,
+}
+
+impl EmfCfg {
+    pub fn encode(&self) -> String {
+        let sets = self
+            .default_dims
+            .iter()
+            .map(|s| if s.is_empty() { ".".to_string() } else { s.iter().map(|d| hs(d)).collect::<Vec<_>>().join(",") })
+            .collect::<Vec<_>>()
+            .join(";");
+        format!(
+            "{}/{}/{}/{}/{}/{}/{}",
+            self.how,
+            self.namespaces.iter().map(|n| hs(n)).collect::<Vec<_>>().join(","),
+            sets,
+            self.log_group.as_ref().map(|g| hs(g)).unwrap_or_else(|| "~".into()),
+            self.allow_ignored as u8,
+            self.extra_directive as u8,
+            self.multiplicity.map(|m| format!("m{m}")).unwrap_or_else(|| "-".into())
+        )
+    }
+    pub fn decode(s: &str) -> Option<EmfCfg> {
+        let p: Vec<&str> = s.split('/').collect();
+        if p.len() != 7 {
+            return None;
+        }
+        Some(EmfCfg {
+            how: p[0].chars().next()?,
+            namespaces: p[1].split(',').map(uhs).collect::<Option<Vec<_>>>()?,
+            default_dims: p[2]
+                .split(';')
+                .map(|s| if s == "." { Some(vec![]) } else { s.split(',').map(uhs).collect::<Option<Vec<_>>>() })
+                .collect::<Option<Vec<_>>>()?,
+            log_group: if p[3] == "~" { None } else { Some(uhs(p[3])?) },
+            allow_ignored: p[4] == "1",
+            extra_directive: p[5] == "1",
+            multiplicity: if p[6] == "-" { None } else { Some(p[6].strip_prefix('m')?.parse().ok()?) },
+        })
+    }
+    /// whether this way of constructing the formatter validates in the *current build profile*
+    /// (documented: the builder validates only when debug assertions are on)
+    pub fn validates(&self) -> bool {
+        match self.how {
+            'A' => true,
+            'N' | 'S' => false,
+            _ => cfg!(debug_assertions),
+        }
+    }
+    pub fn build(&self) -> metrique_writer_format_emf::Emf {
+        use metrique_writer_format_emf::{Emf, MetricDefinition, MetricDirective};
+        let ns0 = self.namespaces[0].clone();
+        if self.namespaces.len() == 1 && self.log_group.is_none() && !self.allow_ignored && !self.extra_directive {
+            match self.how {
+                'A' => return Emf::all_validations(ns0, self.default_dims.clone()),
+                'N' => return Emf::no_validations(ns0, self.default_dims.clone()),
+                _ => {}
+            }
+        }
+        let mut b = Emf::builder(ns0, self.default_dims.clone());
+        for n in &self.namespaces[1..] {
+            b = b.add_namespace(n.clone());
+        }
+        if let Some(g) = &self.log_group {
+            b = b.log_group_name(g.clone());
+        }
+        b = b.allow_ignored_dimensions(self.allow_ignored);
+        if self.extra_directive {
+            b = b.directive(MetricDirective {
+                dimensions: vec![vec!["ExtraDim"]],
+                metrics: vec![MetricDefinition { name: "ExtraMetric", unit: Unit::Count, storage_resolution: None }],
+                namespace: "Extra",
+            });
+        }
+        match self.how {
+            'N' | 'S' => b = b.skip_all_validations(true),
+            'F' => b = b.skip_all_validations(false),
+            _ => {}
+        }
+        // 'A' with a non-trivial builder configuration cannot be expressed through the
+        // all_validations constructor; engines generate 'A' only with the trivial configuration
+        b.build()
+    }
+}
+
+/// A scripted `RngCore`: returns the given 64-bit words in order, then zeros.
+pub struct ScriptedRng {
+    pub words: Vec<u64>,
+    pub pos: usize,
+}
+
+impl rand::RngCore for ScriptedRng {
+    fn next_u32(&mut self) -> u32 {
+        (self.next_u64() >> 32) as u32
+    }
+    fn next_u64(&mut self) -> u64 {
+        let w = self.words.get(self.pos).copied().unwrap_or(0);
+        self.pos += 1;
+        w
+    }
+    fn fill_bytes(&mut self, dst: &mut [u8]) {
+        for chunk in dst.chunks_mut(8) {
+            let w = self.next_u64().to_le_bytes();
+            chunk.copy_from_slice(&w[..chunk.len()]);
+        }
+    }
+}
+
+/// A real formatter built from an `EmfCfg`: plain `Emf`, or `SampledEmf` over a scripted RNG.
+/// It persists across calls (needed for history-independence checks).
+pub enum BuiltFmt {
+    Plain(metrique_writer_format_emf::Emf),
+    Sampled(metrique_writer_format_emf::SampledEmf<ScriptedRng>, f32),
+}
+
+impl EmfCfg {
+    /// `None` when the multiplicity cannot be produced exactly (supported: powers of two up to
+    /// 2^62 through rate 2^-k, where alpha = 1 so every draw gives n = 2^k; and u64::MAX through a
+    /// rate below 2^-63).
+    pub fn build_fmt(&self) -> Option<BuiltFmt> {
+        match self.multiplicity {
+            None => Some(BuiltFmt::Plain(self.build())),
+            Some(m) => {
+                let rate: f32 = if m == u64::MAX {
+                    f32::from_bits(0x1f00_0000) // 2^-65
+                } else if m.is_power_of_two() && m <= (1u64 << 62) {
+                    (1.0f64 / m as f64) as f32
+                } else {
+                    return None;
+                };
+                Some(BuiltFmt::Sampled(
+                    self.build().with_sampling_and_rng(ScriptedRng { words: vec![], pos: 0 }),
+                    rate,
+                ))
+            }
+        }
+    }
+}
+
+impl BuiltFmt {
+    pub fn format(
+        &mut self,
+        entry: &impl Entry,
+        out: &mut impl std::io::Write,
+    ) -> Result<(), metrique_writer_core::IoStreamError> {
+        use metrique_writer_core::format::Format;
+        use metrique_writer_core::sample::SampledFormat;
+        match self {
+            BuiltFmt::Plain(f) => f.format(entry, out),
+            BuiltFmt::Sampled(f, rate) => f.format_with_sample_rate(entry, out, *rate),
+        }
+    }
+}
